@@ -205,6 +205,25 @@ impl Write for Trickle<'_> {
 }
 
 /// argv: writers <maxlen> <shard> <nshards>
+/// write all chunks through `write_vectored` (several buffers per call), advancing by whatever count the writer reports
+fn write_all_vectored_manual<W: Write>(w: &mut W, chunks: &[&[u8]]) {
+    let mut rest: Vec<&[u8]> = chunks.iter().copied().filter(|c| !c.is_empty()).collect();
+    while !rest.is_empty() {
+        let slices: Vec<std::io::IoSlice> = rest.iter().take(3).map(|c| std::io::IoSlice::new(c)).collect();
+        let mut n = w.write_vectored(&slices).unwrap();
+        assert!(n > 0, "write_vectored accepted nothing");
+        while n > 0 {
+            if n >= rest[0].len() {
+                n -= rest[0].len();
+                rest.remove(0);
+            } else {
+                rest[0] = &rest[0][n..];
+                n = 0;
+            }
+        }
+    }
+}
+
 pub fn writers(args: &[String]) {
     let maxlen: usize = args[0].parse().unwrap();
     let shard: u64 = args[1].parse().unwrap();
@@ -306,6 +325,22 @@ pub fn writers(args: &[String]) {
                 }
                 check("tee(mapped,mapped).a", &a, &want);
                 check("tee(mapped,mapped).b", &b, &expected(&input, b'a'));
+                // 6. the same writers fed through write_vectored (several buffers per call): the count a writer reports is what it took
+                let (mut a, mut b) = (Vec::new(), Vec::new());
+                {
+                    let mut w = tee(line_mapped(&mut a, mapf), Trickle(&mut b, 2));
+                    write_all_vectored_manual(&mut w, &chunks);
+                    w.flush().unwrap();
+                }
+                check("vectored tee(mapped,trickle).a", &a, &want);
+                check("vectored tee(mapped,trickle).b", &b, &input);
+                let (mut a, mut b) = (Vec::new(), Vec::new());
+                {
+                    let mut w = line_mapped(tee(tee(&mut a, Trickle(&mut b, 3)), std::io::sink()), mapf);
+                    write_all_vectored_manual(&mut w, &chunks);
+                }
+                check("vectored mapped(tee(tee)).a", &a, &want);
+                check("vectored mapped(tee(tee)).b", &b, &want);
                 if samples.len() < 2 && len >= 5 && chunks.len() >= 3 && bits.count_ones() >= 2 {
                     samples.push(json!({"input": String::from_utf8_lossy(&input), "chunks": chunks.iter().map(|c| String::from_utf8_lossy(c).to_string()).collect::<Vec<_>>(), "emitted": String::from_utf8_lossy(&want)}));
                 }
